@@ -339,7 +339,15 @@ def _run_history(desc, props=("C03", "C05", "C09")):
                 last_ok = False
                 continue
         else:
-            res, exc = S.run(out_ids, W=W, sched=sched, fresh_tick=fresh, perturb=perturb, seed=seed + si)
+            tkw = {}
+            tchoice = rng.random()
+            if tchoice < 0.1:
+                tkw["transform_physical"] = lambda p_, o_: (p_, o_)  # a callback that changes nothing must change nothing
+            elif tchoice < 0.2:
+                tkw["transform_physical"] = lambda p_, o_: (p_.copy(), o_)
+            if tkw:
+                stats["runs_with_transform_physical"] += 1
+            res, exc = S.run(out_ids, W=W, sched=sched, fresh_tick=fresh, perturb=perturb, seed=seed + si, **tkw)
         log.append(f"{si}: run W={W} sched={sched} out={out_ids} fresh={fresh} state={state_before} -> "
                    f"{'ok' if exc is None else repr(exc)[:80]} execs={sorted(exp.execs)} writes={sorted(exp.writes)} reads={sorted(exp.reads)}")
         if exc is not None:
